@@ -371,12 +371,19 @@ class Dex:
             maps.append((0x2000, ncd, cd_start))
         # ---- string data ---------------------------------------------------------------------------------------
         sd_start = here()
-        sdoff = []
-        for s in S:
-            sdoff.append(here())
-            u = units(s)
+        # (a string_id_item only stores an offset: the data may be laid out in any order; layout['string_data_order'] = 'reverse' | 'interleave')
+        order = list(range(len(S)))
+        if self.layout.get('string_data_order') == 'reverse':
+            order.reverse()
+        elif self.layout.get('string_data_order') == 'interleave':
+            order = order[1::2] + order[0::2]
+        sdoff = [0] * len(S)
+        for k in order:
+            sdoff[k] = here()
+            u = units(S[k])
             data += uleb(len(u)) + mutf8(u) + b'\0'
         self.layout['string_data'] = list(sdoff)
+        self.layout['string_data_pos'] = {k: n for n, k in enumerate(order)}       # string index -> position in the file
         if n_s:
             maps.append((0x2002, n_s, sd_start))
         data += b'\0' * self.layout.get('tail_pad', 0)
